@@ -450,6 +450,10 @@ def portable_hash(x):
         return strhash(x)
     if isinstance(x, datetime.datetime):
         return portable_hash(x.timetuple())
+    if isinstance(x, (float, complex)) and x != x:
+        # NaN: since Python 3.10 its builtin hash is derived from the address
+        # of the object, which differs between (and within) processes
+        return 0
     return hash(x)
 
 
